@@ -44,6 +44,7 @@ J World::to_json() const {
         if (!f.second.content.empty()) o.set("content", f.second.content);
         if (f.second.open_errno) o.set("open_errno", f.second.open_errno);
         if (f.second.uid) o.set("uid", f.second.uid);
+        if (f.second.kind == 4) o.set("fifo_free", (long long)f.second.fifo_free);
         fs.set(f.first, o);
     }
     j.set("files", fs);
@@ -93,7 +94,7 @@ void World::from_json(const J &j) {
         for (auto it = files.begin(); it != files.end();) { if (it->first.compare(0, 6, "/proc/") != 0) it = files.erase(it); else ++it; }
         for (auto &p : j.at("files").o) {
             FileNode f; f.kind = (int)p.second.geti("kind"); f.content = p.second.gets("content");
-            f.open_errno = (int)p.second.geti("open_errno"); f.uid = (uint32_t)p.second.geti("uid");
+            f.open_errno = (int)p.second.geti("open_errno"); f.uid = (uint32_t)p.second.geti("uid"); f.fifo_free = (long)p.second.geti("fifo_free", -1);
             files[p.first] = f;
         }
     }
